@@ -10,7 +10,8 @@ import random
 import zlib
 
 IDENTS = ["lib", "stdenv", "fetchurl", "pname", "version", "src", "meta", "owner", "repo", "a", "b", "foo-bar", "x'"]
-STRS = ['"trl"', '"0.19.0"', '"sha256-abc="', '"v${version}"', '"a b"', '""', '"é✓"']
+STRS = ['"trl"', '"0.19.0"', '"sha256-abc="', '"v${version}"', '"a b"', '""', '"é✓"', '"say \\"hi\\""', '"\\"q\\" and \\\\"',
+        '"The so-called \\"best\\""']
 
 
 def ind(n):
@@ -60,7 +61,7 @@ class Gen:
 
     def item(self, level, depth, kind=None):
         kind = kind or self.rng.choice(["bind"] * 6 + ["commented", "eol", "inherit", "inherit-from", "attrpath", "blank-bind",
-                                                      "block-comment", "if-multi", "eol-multi", "empty-containers", "attrpath-next-line"])
+                                                      "block-comment", "if-multi", "eol-multi", "empty-containers", "attrpath-next-line", "comment-only-list"])
         pad = ind(level)
         if kind == "bind":
             return f"{pad}{self.name()} = {self.value(level, depth)};\n"
@@ -85,6 +86,9 @@ class Gen:
                     f"{pad}{self.name()} = [\n{pad}  a\n{pad}  b\n{pad}]; # list\n")
         if kind == "empty-containers":
             return f"{pad}{self.name()} = f [ ];\n{pad}{self.name()} = x: {{ }};\n{pad}{self.name()} = g {{ }} [ ];\n"
+        if kind == "comment-only-list":
+            return (f"{pad}{self.name()} = with pkgs; [\n{pad}  # none yet\n{pad}];\n"
+                    f"{pad}{self.name()} = [\n{pad}  # todo\n{pad}];\n")
         if kind == "attrpath-next-line":
             n = self.name()
             return (f"{pad}{n}.platforms =\n{pad}  with lib.platforms;\n{pad}  linux ++ darwin;\n"
@@ -161,7 +165,7 @@ class Gen:
 
 
 ITEM_KINDS = ["bind", "commented", "eol", "inherit", "inherit-from", "attrpath", "blank-bind", "block-comment", "if-multi",
-              "eol-multi", "empty-containers", "attrpath-next-line"]
+              "eol-multi", "empty-containers", "attrpath-next-line", "comment-only-list"]
 
 
 def enumerate_pairs(seed=0):
